@@ -80,7 +80,8 @@ def wl_history(rng, length):
             sep = rng.choice(["char", "SFDigits1", "SFDigits2", "SFSymbols", "SFNone", "recipe"])
             st = dict(op="set", obj=k, field="sep", sep=sep)
             if sep == "recipe":
-                st["sepRecipe"] = dict(len=rng.choice([1, 2]), allow=0, require=0, exclude=0, allowChars=o(rng.choice(["xy", "abc"])), requireSets=[], excludeChars=[])
+                st["sepRecipe"] = dict(len=rng.choice([1, 2]), allow=0, require=0, exclude=0, allowChars=o(rng.choice(["xy", "abc"])),
+                                       requireSets=rng.choice([[], [], [o("y")], [o("1")]]), excludeChars=[])
             steps.append(st)
     steps.append(dict(op="call", obj=0, paths=2))
     return dict(kind="whist", words=words, wobjs=objs, steps=steps, maxTrials=0, failRateOne=0, tag="seeded-wl")
